@@ -30,6 +30,7 @@ try:
         print(p, "exit", c.returncode, [x.get("line", x) if isinstance(x, dict) else x for x in (replays or lines)][:3])
 finally:
     subprocess.run(["git", "-C", "/repo", "checkout", "--", "."])
+    subprocess.run(["git", "-C", "/repo", "clean", "-fdq"])  # files a patch added (ignored build output stays)
     # tables regenerated from the seeded code must not stay behind
     subprocess.run(["git", "-C", "/verif", "checkout", "--", "lean/SradModel/Generated", "evidence"])
 meta.setdefault("detection", {}).update(results)
